@@ -293,8 +293,11 @@ def build_files(spec):
         svc2 = g.service("Archive")
         for m in spec["svc2"]["methods"]:
             http = ("post", "/v1/{name=*}:" + m["name"][0].lower() + m["name"][1:])
-            if m["kind"] == "lro":
+            if m["kind"] in ("lro", "excluded"):
                 svc2.method(m["name"], arq, OP_OUT, lro=(m["response"]["text"], m["metadata"]["text"]), http=http, body="*")
+            elif m["kind"] == "present-empty":
+                from google.longrunning import operations_pb2
+                svc2.method(m["name"], arq, OP_OUT, http=http, body="*").options.Extensions[operations_pb2.operation_info].SetInParent()
             else:
                 svc2.method(m["name"], arq, OP_OUT, http=http, body="*")
     return [out[role] for role in spec["order"]]
@@ -639,6 +642,21 @@ def fail_key(spec, sig):
     return "generation-failed:" + sig
 
 
+def model_services(ctx, spec, mfiles, svc_idx, main_methods):
+    """the service-level model (`loadService`): services in request order of their files, methods in declaration order;
+    returns ({file name: model result}, first error or None)"""
+    names = [f["name"] for f in mfiles]
+    sv_ops = [(mfiles[svc_idx]["name"], {"op": "c08.service", "files": mfiles, "file": svc_idx, "methods": main_methods})]
+    if spec.get("svc2"):
+        idx2 = names.index(fpath(spec, "unimp"))
+        sv_ops.append((mfiles[idx2]["name"], {"op": "c08.service", "files": mfiles, "file": idx2,
+                       "methods": [{"output": OP_OUT, "opinfo": [m["response"]["text"], m["metadata"]["text"]] if "response" in m
+                                    else (["", ""] if m["kind"] == "present-empty" else None)} for m in spec["svc2"]["methods"]]}))
+    sv_ops.sort(key=lambda t: names.index(t[0]))
+    sv_res = dict(zip([t[0] for t in sv_ops], ask(ctx, [t[1] for t in sv_ops])))
+    return sv_res, next((sv_res[t[0]] for t in sv_ops if "error" in sv_res[t[0]]), None)
+
+
 def run_spec(ctx, r, spec, label, transports=("grpc", "grpc_asyncio", "rest")):
     files = build_files(spec)
     req, tmp = make_request(spec, files)
@@ -666,17 +684,7 @@ def _run_spec(ctx, r, spec, label, files, req, transports):
         info = [m["response"]["text"], m["metadata"]["text"]] if "response" in m else (["", ""] if m["kind"] == "present-empty" else None)
         mops.append({"op": "c08.lro", "files": mfiles, "file": svc_idx, "output": out, "opinfo": info})
     mres = ask(ctx, mops)
-    # the service-level model (`loadService`): services in request order of their files, methods in declaration order
-    sv_ops = [(mfiles[svc_idx]["name"], {"op": "c08.service", "files": mfiles, "file": svc_idx,
-                                         "methods": [{"output": o["output"], "opinfo": o["opinfo"]} for o in mops]})]
-    if spec.get("svc2"):
-        idx2 = [f["name"] for f in mfiles].index(fpath(spec, "unimp"))
-        sv_ops.append((mfiles[idx2]["name"], {"op": "c08.service", "files": mfiles, "file": idx2,
-                       "methods": [{"output": OP_OUT, "opinfo": [m["response"]["text"], m["metadata"]["text"]] if "response" in m else None}
-                                   for m in spec["svc2"]["methods"]]}))
-    sv_ops.sort(key=lambda t: [f["name"] for f in mfiles].index(t[0]))
-    sv_res = dict(zip([t[0] for t in sv_ops], ask(ctx, [t[1] for t in sv_ops])))
-    model_err = next((sv_res[t[0]] for t in sv_ops if "error" in sv_res[t[0]]), None)
+    sv_res, model_err = model_services(ctx, spec, mfiles, svc_idx, [{"output": o["output"], "opinfo": o["opinfo"]} for o in mops])
     ctx.count("sharing", spec.get("sharing", "n/a")); ctx.count("second_service", "yes" if spec.get("svc2") else "no")
     # ---- implementation: generation outcome
     res, err = genrun.try_generate(req)
@@ -1129,7 +1137,7 @@ def run_outcome(ctx, spec, expect, label):
     for m in spec["methods"]:
         info = [m["response"]["text"], m["metadata"]["text"]] if "response" in m else (["", ""] if m["kind"] == "present-empty" else None)
         mops.append({"op": "c08.lro", "files": mfiles, "file": svc_idx, "output": OP_OUT, "opinfo": info})
-    model_err = next((mo for mo in ask(ctx, mops) if "error" in mo), None)
+    _sv, model_err = model_services(ctx, spec, mfiles, svc_idx, [{"output": o["output"], "opinfo": o["opinfo"]} for o in mops])
     res, err = genrun.try_generate(req)
     ctx.case({"outcome_case": label, "impl": err[0] if err else "generated"}, distinct_key=["outcome", json.dumps(spec, sort_keys=True)])
     ctx.traces += 1
@@ -1150,7 +1158,7 @@ def ref(text, target, case):
 
 
 def run_rejections(ctx, r):
-    for n in range(ctx.n(6, 40)):
+    for n in range(ctx.n(8, 48)):
         pkg = r.pick(PKGS)
         good = r.pick([ref("Book", f"{pkg}.Book", "rel-same"), ref(f"{pkg}.Crate", f"{pkg}.Crate", "abs-unimp"),
                        ref("google.protobuf.Empty", "google.protobuf.Empty", "empty-unimported")])
@@ -1164,7 +1172,14 @@ def run_rejections(ctx, r):
         elif which == 2: methods.append({"name": "Bad", "kind": "excluded", "response": none, "metadata": none})
         else: methods.append({"name": "Bad", "kind": "present-empty"})
         r.shuffle(methods)
-        run_outcome(ctx, small_spec(pkg, methods), "rejected", ["no-response", "no-metadata", "neither", "option-present-empty"][which])
+        spec = small_spec(pkg, methods)
+        label = ["no-response", "no-metadata", "neither", "option-present-empty"][which]
+        if n % 3 == 2:         # the incomplete annotation sits in the SECOND service (another file), the first service is fine
+            bad = [m for m in methods if m["name"] == "Bad"]
+            spec["methods"] = [m for m in methods if m["name"] != "Bad"] + [{"name": "StartRaw", "kind": "raw"}]
+            spec["svc2"] = {"methods": [{"name": "ArchiveRaw", "kind": "raw"}] + bad}
+            label += "-second-service"
+        run_outcome(ctx, spec, "rejected", label)
 
 
 def run_excluded(ctx, r):
